@@ -141,10 +141,16 @@ def _prune_cache(keep=8):
         ents = [os.path.join(CACHE, d) for d in os.listdir(CACHE) if d.startswith("facts-")]
     except FileNotFoundError:
         return
-    ents.sort(key=lambda p: os.path.getmtime(p), reverse=True)
+    def mtime(p):
+        try:
+            return os.path.getmtime(p)
+        except OSError:             # removed by a concurrent run between listdir and here
+            return 0.0
+    ents.sort(key=mtime, reverse=True)
     now = time.time()
     for p in ents[keep:]:
-        if now - os.path.getmtime(p) > 1800:      # never remove facts another run may be reading
+        m = mtime(p)
+        if m and now - m > 1800:      # never remove facts another run may be reading
             shutil.rmtree(p, ignore_errors=True)
 
 
